@@ -7,6 +7,7 @@ usage: try_seeded.py <dir with patch.diff + demo.(c|sh)> <check ids,comma> [--ke
 Writes <dir>/result.json."""
 import sys, os, subprocess, json, shutil, tempfile, time
 d = os.path.abspath(sys.argv[1]); checks = [c for c in sys.argv[2].split(",") if c and c != "-"]
+VROOT = os.path.dirname(os.path.dirname(os.path.abspath(__file__)))     # the framework tree this script belongs to
 wt = tempfile.mkdtemp(prefix="seedwt_", dir="/var/tmp")
 os.rmdir(wt)
 def sh(cmd, **kw):
@@ -36,7 +37,7 @@ try:
     for c in checks:
         t = time.time()
         env = dict(os.environ, VERIF_REPO=wt, VERIF_NCPU=os.environ.get("VERIF_NCPU", "8"))
-        p = subprocess.run("cd /verif && ./check %s quick" % c, shell=True, stdout=subprocess.PIPE, stderr=subprocess.STDOUT, env=env, timeout=3600)
+        p = subprocess.run("cd %s && ./check %s quick" % (VROOT, c), shell=True, stdout=subprocess.PIPE, stderr=subprocess.STDOUT, env=env, timeout=3600)
         out = p.stdout.decode("utf-8", "replace")
         vio = [l for l in out.split("\n") if l.startswith("VIOLATION")]
         what = ""
